@@ -60,7 +60,7 @@ func (r *ruleImpl) Execute(ctx heimdall.Context) (rule.Backend, error) {
 		// unescape path
 		request.URL.RawPath = ""
 	case config.EncodedSlashesOff:
-		if strings.Contains(request.URL.RawPath, "%2F") {
+		if containsEncodedSlash(request.URL.RawPath) {
 			return nil, errorchain.NewWithMessage(heimdall.ErrArgument,
 				"path contains encoded slash, which is not allowed")
 		}
@@ -160,7 +160,23 @@ func unescape(value string, handling config.EncodedSlashesHandling) string {
 		return unescaped
 	}
 
-	unescaped, _ := url.PathUnescape(strings.ReplaceAll(value, "%2F", "$$$escaped-slash$$$"))
+	return unescapeExceptSlashes(value)
+}
 
-	return strings.ReplaceAll(unescaped, "$$$escaped-slash$$$", "%2F")
+// containsEncodedSlash reports whether the path contains a percent-encoded slash.
+// The hex digits of a percent-encoding are case-insensitive (RFC 3986, section 2.1).
+func containsEncodedSlash(path string) bool {
+	return strings.Contains(path, "%2F") || strings.Contains(path, "%2f")
+}
+
+var (
+	encodedSlashesMasker   = strings.NewReplacer("%2F", "$$$escaped-slash-u$$$", "%2f", "$$$escaped-slash-l$$$")
+	encodedSlashesUnmasker = strings.NewReplacer("$$$escaped-slash-u$$$", "%2F", "$$$escaped-slash-l$$$", "%2f")
+)
+
+// unescapeExceptSlashes decodes everything but percent-encoded slashes.
+func unescapeExceptSlashes(value string) string {
+	unescaped, _ := url.PathUnescape(encodedSlashesMasker.Replace(value))
+
+	return encodedSlashesUnmasker.Replace(unescaped)
 }
